@@ -21,6 +21,7 @@ class Grader:
         self.memo = {}
         self.issues = []                  # (what, detail)
         self.unknown_atoms = []
+        self.strict_sum = False           # a sum over components may only add terms of state-scale degree 0
 
     def poly(self, p, depth=0):
         if not isinstance(p, Poly):
@@ -61,8 +62,8 @@ class Grader:
             poly_only = False
             dm += g[0] * e
             ds += g[1] * e
-        if poly_only and not m:
-            return POLY
+        if poly_only:
+            return POLY      # a constant, or a product of grade-polymorphic atoms (literal-like constants, integers)
         return (dm, ds)
 
     def atom(self, a, depth=0):
@@ -97,6 +98,10 @@ class Grader:
                 return g
             if g is POLY:
                 return (Fraction(1), Fraction(0))
+            if self.strict_sum and g[1] != 0:
+                self.issues.append(("sum", "a sum over the components adds terms of state-scale degree %s: components are added before they are divided by their own tolerance scale, "
+                                    "so one component's scale decides for all of them: %s" % (g[1], a[:140])))
+                return BAD
             return (g[0] + 1, g[1])
         if base in ("powf", "powi"):
             g = ev(args[0])
